@@ -47,7 +47,7 @@ def main():
                     print("SKIP  %-40s mutant does not compile: %s" % (m["name"], cc.stderr[:200]))
                     fails += 1
                     continue
-                env = dict(os.environ, SS_REPO=base)
+                env = dict(os.environ, SS_REPO=base, SS_EVIDENCE=os.path.join(scratch, "_ev"))
                 r = subprocess.run([os.path.join(V, "check"), m["prop"]], capture_output=True, text=True, env=env, cwd=V)
                 if m["kind"] == "break":
                     ok = r.returncode == 1 and ("rule " + m["rule"]) in r.stdout
